@@ -21,6 +21,7 @@ class TranslateError(Exception):
 
 INT, FLOAT, BOOL, ARR, INTLIST, IDL, IDLLIST, BOOLLIST = "Z", "Q", "bool", "(list Q)", "(list Z)", "idl", "(list idl)", "(list bool)"
 STR, STRLIST, DICT = "string", "(list string)", "(list (string * Q))"
+IDLMAP = "(string -> idl)"        # a dictionary name -> configuration list, read only (keys are iterated through an alias)
 EXN = {"IndexError": "IndexError", "ValueError": "ValueError", "ZeroDivisionError": "ZeroDivisionError", "TypeError": "TypeError"}
 
 
@@ -31,7 +32,8 @@ def _d(node):
 class Fn:
     """Translation of one function body."""
 
-    def __init__(self, name, params, ret, aliases=None, consts=None, hints=None, stores=None):
+    def __init__(self, name, params, ret, aliases=None, consts=None, hints=None, stores=None, iter_aliases=None):
+        self.iter_aliases = iter_aliases or {}
         self.hints = hints or {}
         self.stores = stores or {}     # ast.dump(expr) of a dictionary that is stored into -> name of the state variable
         self.name = name
@@ -187,6 +189,8 @@ class Fn:
             f = {ast.Gt: "(Qltb %s %s)", ast.GtE: "(Qleb %s %s)"}.get(op)
             if f:
                 return f % (qb, qa), BOOL
+        if ta == STR and tb == STR and op is ast.Eq:
+            return "(String.eqb %s %s)" % (a, b), BOOL
         if ta == IDL and tb == IDL and op is ast.Eq:
             return "(idl_eqb %s %s)" % (a, b), BOOL
         raise TranslateError("%s: comparison %s on (%s, %s)" % (self.name, op.__name__, ta, tb))
@@ -204,8 +208,20 @@ class Fn:
                 if ta == IDL and tb == IDL:
                     return "(py_intersect1d_pos (cfgs %s) (cfgs %s))" % (a, b), INTLIST
             raise TranslateError("%s: np.intersect1d call shape" % self.name)
+        # name.split('|')[0]
+        if isinstance(v, ast.Call) and isinstance(v.func, ast.Attribute) and v.func.attr == "split" and len(v.args) == 1 and not v.keywords \
+                and isinstance(v.args[0], ast.Constant) and v.args[0].value == "|" and isinstance(node.slice, ast.Constant) and node.slice.value == 0:
+            t, ty = self.expr(v.func.value, env, binds)
+            if ty != STR:
+                raise TranslateError("%s: .split of %s" % (self.name, ty))
+            return "(ens_of %s)" % t, STR
         t, ty = self.expr(node.value, env, binds)
         sl = node.slice
+        if ty == IDLMAP and not isinstance(sl, ast.Slice):
+            i, ti = self.expr(sl, env, binds)
+            if ti != STR:
+                raise TranslateError("%s: name -> idl dictionary indexed with %s" % (self.name, ti))
+            return "(%s %s)" % (t, i), IDL
         if isinstance(sl, ast.Slice):
             if sl.step is not None or ty != ARR:
                 raise TranslateError("%s: slice with a step / of %s" % (self.name, ty))
@@ -230,11 +246,25 @@ class Fn:
         return r, elt
 
     def listcomp(self, node, env, binds):
-        if len(node.generators) != 1 or node.generators[0].ifs or not isinstance(node.generators[0].target, ast.Name):
+        if len(node.generators) != 1 or not isinstance(node.generators[0].target, ast.Name):
             raise TranslateError("%s: list comprehension shape" % self.name)
         g = node.generators[0]
         xs, tx = self.iterable(g.iter, env, binds)
         x = g.target.id
+        if g.ifs:
+            # [x for x in xs if cond]: a filter (the condition must not be able to raise)
+            if len(g.ifs) != 1 or not (isinstance(node.elt, ast.Name) and node.elt.id == x):
+                raise TranslateError("%s: filtering comprehension shape" % self.name)
+            envf = dict(env)
+            envf[x] = tx
+            bf = []
+            c, tc = self.expr(g.ifs[0], envf, bf)
+            if bf or tc != BOOL:
+                raise TranslateError("%s: filter condition that can raise / is not boolean" % self.name)
+            out = {STR: STRLIST, INT: INTLIST}.get(tx)
+            if out is None:
+                raise TranslateError("%s: filter over %s" % (self.name, tx))
+            return "(filter (fun %s => %s) %s)" % (self.v(x), c, xs), out
         env2 = dict(env)
         env2[x] = tx
         b = []
@@ -249,6 +279,9 @@ class Fn:
     def iterable(self, node, env, binds):
         """-> (coq list term, element type)"""
         key = _d(node)
+        if key in self.iter_aliases:      # iterating a dictionary runs over its keys
+            t, ty = self.iter_aliases[key]
+            return t, {STRLIST: STR}[ty]
         if key in self.aliases:
             t, ty = self.aliases[key]
             return t, {IDLLIST: IDL, INTLIST: INT, STRLIST: STR}[ty]
@@ -264,6 +297,8 @@ class Fn:
         t, ty = self.expr(node, env, binds)
         if ty == INTLIST:
             return t, INT
+        if ty == STRLIST:
+            return t, STR
         if ty == IDLLIST:
             return t, IDL
         if ty == IDL:
@@ -289,7 +324,7 @@ class Fn:
             t, ty = self.expr(node.args[0], env, binds)
             if ty == IDL:
                 return "(zlen (cfgs %s))" % t, INT
-            if ty in (ARR, INTLIST, IDLLIST):
+            if ty in (ARR, INTLIST, IDLLIST, STRLIST):
                 return "(zlen %s)" % t, INT
             raise TranslateError("%s: len of %s" % (self.name, ty))
         if fname == "isinstance" and len(node.args) == 2 and isinstance(node.args[1], ast.Name) and node.args[1].id == "range":
@@ -341,6 +376,11 @@ class Fn:
             if ty != IDLLIST:
                 raise TranslateError("%s: _check_lists_equal on %s" % (self.name, ty))
             return "(all_idl_equal %s)" % t, BOOL
+        if fname == "sum" and len(node.args) == 1:
+            t, ty = self.expr(node.args[0], env, binds)
+            if ty != INTLIST:
+                raise TranslateError("%s: sum of %s" % (self.name, ty))
+            return "(py_sum %s)" % t, INT
         if fname == "min" and len(node.args) == 1:
             t, ty = self.expr(node.args[0], env, binds)
             if ty != INTLIST:
@@ -478,6 +518,20 @@ class Fn:
                 raise TranslateError("%s: multiple assignment" % self.name)
             tgt = s.targets[0]
             b = []
+            if isinstance(tgt, ast.Name) and isinstance(s.value, ast.Dict) and not s.value.keys:
+                if self.hints.get(tgt.id) != DICT:
+                    raise TranslateError("%s: empty dict literal of unknown type (%s)" % (self.name, tgt.id))
+                env2 = dict(env)
+                env2[tgt.id] = DICT
+                return "let %s := ([] : list (string * Q)) in %s" % (self.v(tgt.id), nxt(env2))
+            if isinstance(tgt, ast.Subscript) and isinstance(tgt.value, ast.Name) and env.get(tgt.value.id) == DICT \
+                    and not isinstance(tgt.slice, ast.Slice):
+                i, ti = self.expr(tgt.slice, env, b)
+                t, ty = self.expr(s.value, env, b)
+                if ti != STR:
+                    raise TranslateError("%s: dictionary store with a key of type %s" % (self.name, ti))
+                dn = self.v(tgt.value.id)
+                return self.seq(b, "let %s := (dict_put %s %s %s) in %s" % (dn, dn, i, self.coerce(t, ty, FLOAT), nxt(env)))
             if isinstance(tgt, ast.Name) and isinstance(s.value, ast.List) and not s.value.elts:
                 if self.hints.get(tgt.id) != INTLIST:
                     raise TranslateError("%s: empty list literal of unknown element type (%s)" % (self.name, tgt.id))
@@ -497,6 +551,16 @@ class Fn:
                     raise TranslateError("%s: store index of type %s" % (self.name, ti))
                 a = self.v(tgt.value.id)
                 b.append((a, "py_store %s %s %s" % (a, i, self.coerce(t, ty, FLOAT))))
+                return self.seq(b, nxt(env))
+            if isinstance(tgt, ast.Subscript) and isinstance(tgt.value, ast.Name) and env.get(tgt.value.id) == ARR \
+                    and isinstance(tgt.slice, ast.Slice) and tgt.slice.step is None:
+                a = self.v(tgt.value.id)
+                lo = ("(0)", INT) if tgt.slice.lower is None else self.expr(tgt.slice.lower, env, b)
+                hi = ("(zlen %s)" % a, INT) if tgt.slice.upper is None else self.expr(tgt.slice.upper, env, b)
+                t, ty = self.expr(s.value, env, b)
+                if lo[1] != INT or hi[1] != INT or ty != ARR:
+                    raise TranslateError("%s: slice assignment with (%s, %s, %s)" % (self.name, lo[1], hi[1], ty))
+                b.append((a, "py_slice_set %s %s %s %s" % (a, lo[0], hi[0], t)))
                 return self.seq(b, nxt(env))
             if isinstance(tgt, ast.Subscript) and _d(tgt.value) in self.stores and not isinstance(tgt.slice, ast.Slice):
                 dn = self.stores[_d(tgt.value)]
@@ -571,8 +635,9 @@ class Fn:
             xs, tx = self.iterable(s.iter, env, b)
             state = [n for n in self.assigned(s.body) if n in env]
             extra = [n for n in self.assigned(s.body) if n not in env]
-            if extra:
-                raise TranslateError("%s: loop body introduces new variables %s" % (self.name, extra))
+            later = {n.id for st in rest for n in ast.walk(st) if isinstance(n, ast.Name)}
+            if set(extra) & later:
+                raise TranslateError("%s: variables first assigned inside a loop are used after it: %s" % (self.name, sorted(set(extra) & later)))
             if not state:
                 raise TranslateError("%s: loop without state" % self.name)
             pat = self.v(state[0]) if len(state) == 1 else "'(" + ", ".join(self.v(n) for n in state) + ")"
@@ -673,6 +738,15 @@ SIGS = [
          stores={"getattr(self, kwarg_name)": "out"}),
     dict(coq="_calc_gamma", py="Obs._calc_gamma", needs=["_expand_deltas"],
          params=[("self", None), ("deltas", ARR), ("idx", IDL), ("shape", INT), ("w_max", INT), ("fft", BOOL), ("gapsize", INT)], ret=ARR),
+    dict(coq="_compute_scalefactor_missing_rep", py="derived_observable._compute_scalefactor_missing_rep", params=[("obs", None)], ret=DICT,
+         extra_params=[("v_mc_names", STRLIST), ("v_obs_names", STRLIST), ("v_new_names", STRLIST), ("v_new_idl_d", IDLMAP)],
+         env={"new_idl_d": IDLMAP}, hints={"scalef_d": DICT},
+         aliases={"obs.mc_names": ("v_mc_names", STRLIST), "obs.idl": ("v_obs_names", STRLIST)},
+         iter_aliases={"new_idl_d": ("v_new_names", STRLIST)}),
+    dict(coq="export_jackknife", py="Obs.export_jackknife", params=[("self", None)], ret=ARR,
+         extra_params=[("v_nnames", INT), ("v_name", STR), ("v_deltas", ARR), ("v_rmean", FLOAT), ("v_value", FLOAT)],
+         aliases={"len(self.names)": ("v_nnames", INT), "self.names[0]": ("v_name", STR), "self.deltas[name]": ("v_deltas", ARR),
+                  "self.r_values[name]": ("v_rmean", FLOAT), "self.value": ("v_value", FLOAT)}),
     dict(coq="_reduce_deltas", py="_reduce_deltas", params=[("deltas", ARR), ("idx_old", IDL), ("idx_new", IDL)], ret=ARR),
     dict(coq="_expand_deltas_for_merge", py="_expand_deltas_for_merge",
          params=[("deltas", ARR), ("idx", IDL), ("shape", INT), ("new_idx", IDL), ("scalefactor", FLOAT)], ret=ARR),
@@ -710,7 +784,8 @@ def translate_source(src, sigs=None, only=None):
         for src_expr, (term, ty) in (sg.get("aliases") or {}).items():
             aliases[_d(ast.parse(src_expr, mode="eval").body)] = (term, ty)
         stores = {_d(ast.parse(e, mode="eval").body): n for e, n in (sg.get("stores") or {}).items()}
-        f = Fn(sg["coq"], sg["params"], sg["ret"], aliases, done, sg.get("hints"), stores)
+        iter_aliases = {_d(ast.parse(e, mode="eval").body): v for e, v in (sg.get("iter_aliases") or {}).items()}
+        f = Fn(sg["coq"], sg["params"], sg["ret"], aliases, done, sg.get("hints"), stores, iter_aliases)
         env = {p: ty for p, ty in sg["params"] if ty is not None}
         env.update(sg.get("env", {}))
         fin = None
